@@ -105,3 +105,26 @@ def unit_root_of_power(a: Unit, n: int) -> None:
 def prefixed_power(p: Prefix, u: Unit, n: int) -> None:
     # C11: (p*u)**n is p**n * u**n
     assert (p * u) ** n is p**n * u**n
+
+
+# ---- C12: comparisons are coherent (over the contracts of Quantity.__eq__ / __lt__) -------------
+
+
+def qty_eq_reflexive(a: Quantity) -> None:
+    assert a == a
+
+
+def qty_eq_symmetric(a: Quantity, b: Quantity) -> None:
+    assert (a == b) == (b == a)
+
+
+def qty_trichotomy(a: Quantity, b: Quantity) -> None:
+    # exactly one of a < b, a == b, a > b whenever the ordering is defined at all
+    lt = a < b
+    gt = a > b
+    eq = a == b
+    assert (lt and not eq and not gt) or (eq and not lt and not gt) or (gt and not lt and not eq)
+
+
+def qty_le_ge_mirror(a: Quantity, b: Quantity) -> None:
+    assert (a <= b) == (b >= a)
